@@ -88,15 +88,19 @@ import (
 // byteReader delivers one byte per Read and calls onAt when byte number `at` is requested
 // (at == len(src): when the byte after the last one is requested).  onReq, if set, is called
 // at the first request of every byte number.
+type ctxKey struct{}
+
 type byteReader struct {
-	src   []byte
-	pos   int
-	at    int
-	onAt  func()
-	onReq func(b int)
-	fired bool
-	eof   bool
-	maxRq int
+	ctx      context.Context // context-bound source: fails with ctx.Err() once the context is done
+	withData bool            // ... together with the byte that had arrived
+	src      []byte
+	pos      int
+	at       int
+	onAt     func()
+	onReq    func(b int)
+	fired    bool
+	eof      bool
+	maxRq    int
 }
 
 func (r *byteReader) Read(p []byte) (int, error) {
@@ -114,6 +118,14 @@ func (r *byteReader) Read(p []byte) (int, error) {
 		if r.onAt != nil {
 			r.onAt()
 		}
+	}
+	if r.ctx != nil && r.ctx.Err() != nil {
+		if r.withData && r.pos < len(r.src) {
+			p[0] = r.src[r.pos]
+			r.pos++
+			return 1, r.ctx.Err()
+		}
+		return 0, r.ctx.Err()
 	}
 	if r.pos >= len(r.src) {
 		r.eof = true
@@ -550,12 +562,30 @@ func checkScript(src []byte) (nBase int, runs int, v violations) {
 	// reader-driven
 	prevN = -1
 	prevB := -1
-	for _, b := range sampleBs(src, g) {
-		ctx, cancel := context.WithCancel(context.Background())
+	for bi, b := range sampleBs(src, g) {
+		// the same cancellation through contexts of different shapes: plain WithCancel, a context that also carries a
+		// far deadline and is cancelled explicitly, a deadline context whose PARENT is cancelled, a value context on top
+		var ctx context.Context
+		var cancel func()
+		shape := "WithCancel"
+		switch bi % 4 {
+		case 1:
+			c, cf := context.WithTimeout(context.Background(), time.Hour)
+			ctx, cancel, shape = c, cf, "WithTimeout(1h)+cancel"
+		case 2:
+			parent, pc := context.WithCancel(context.Background())
+			c, cf := context.WithDeadline(parent, time.Now().Add(24*time.Hour))
+			ctx, cancel, shape = c, func() { pc(); cf() }, "WithDeadline(child of cancelled parent)"
+		case 3:
+			c, cf := context.WithCancel(context.Background())
+			ctx, cancel, shape = context.WithValue(c, ctxKey{}, 1), cf, "WithValue(WithCancel)"
+		default:
+			ctx, cancel = context.WithCancel(context.Background())
+		}
 		rd := newByteReader(src, b, cancel)
 		r := parseOnce(ctx, rd)
 		cancel()
-		what := fmt.Sprintf("cancel at byte %d", b)
+		what := fmt.Sprintf("cancel at byte %d (%s)", b, shape)
 		check(what, r, context.Canceled, rd.fired, rd.eof)
 		if prevN >= 0 && r.n < prevN {
 			v.add("%s: %d statements, but %d when cancelled at byte %d (not monotone)", what, r.n, prevN, prevB)
@@ -575,6 +605,37 @@ func checkScript(src []byte) (nBase int, runs int, v violations) {
 			lo, hi := g.bounds(b, w)
 			if r.n < lo || r.n > hi {
 				v.add("%s: %d statements outside the position bounds [%d,%d]", what, r.n, lo, hi)
+			}
+		}
+	}
+
+	// a source bound to the same context: once the context is cancelled the reader itself fails with ctx.Err(), with or
+	// without the bytes that had arrived.  Whatever was being parsed, Parse must not return a nil error, the error must be
+	// the context's (possibly wrapped as a read error), and everything before the statement in progress is a prefix
+	for bi, b := range sampleBs(src, g) {
+		if b >= len(src) {
+			continue
+		}
+		ctx, cancel := context.WithCancel(context.Background())
+		rd := newByteReader(src, b, cancel)
+		rd.ctx = ctx
+		rd.withData = bi%2 == 1
+		r := parseOnce(ctx, rd)
+		cancel()
+		what := fmt.Sprintf("context-bound reader failing at byte %d (withData=%v)", b, rd.withData)
+		switch {
+		case r.class == "panic":
+			v.add("%s: panic %s", what, r.panicked)
+		case !rd.fired:
+			// the parse ended before that byte was requested
+		case r.err == nil:
+			v.add("%s: nil error with %d statements although the source failed with the context's error", what, r.n)
+		case !errors.Is(r.err, context.Canceled):
+			v.add("%s: error %v is not (and does not wrap) the context's error", what, r.err)
+		default:
+			k := len(r.explains) - 1
+			if k > 0 && !isPrefix(r.explains[:k], base.explains) {
+				v.add("%s: the statements before the one in progress are not a prefix of the baseline", what)
 			}
 		}
 	}
